@@ -130,7 +130,8 @@ def gen_overrides(rng, rec, lines, n):
         if keys and p < 0.85:
             c = rng.choice(keys)
             if c["name"] == "+":
-                key = rng.choice(["x1", "ovk"]) if T["keytype"] != "ipaddr-or-hostname" else "host-z"
+                key = (rng.choice(["x1", "ovk", "OvK", "X1"]) if T["keytype"] == "identifier" else
+                       rng.choice(["x1", "ovk"]) if T["keytype"] != "ipaddr-or-hostname" else "host-z")
             else:
                 key = c["name"].upper() if (T["keytype"] != "identifier" and rng.random() < 0.3) else c["name"]
             good, bad = refconv.good_values(c["dt"]), refconv.bad_values(c["dt"])
@@ -188,7 +189,12 @@ def compare(ws, sch, rec, item, emit):
 def run(chk):
     quick = chk.tier == "quick"
     rng = random.Random(chk.seed * 7919 + 14)
-    docs = schemas.interaction_schemas()
+    # + a section type whose key type (identifier, case-sensitive) differs from the schema's (basic-key)
+    from ..schemas import K, MK, SEC, MSEC, TYPE, SCHEMA
+    docs = schemas.interaction_schemas() + [
+        SCHEMA(types=[TYPE("env", [K("PATH"), K("+", attribute="vars"), MK("Lib_Dirs", "integer")], keytype="identifier"),
+                      TYPE("holder", [SEC("env", "*", "env"), K("k2")])],
+               children=[SEC("env", "*", "env"), MSEC("env", "+", "envs"), MSEC("holder", "*", "holders"), K("k1")])]
     per = 300 if quick else 2500
     maxov = 2 if quick else 4
     chk.rule = ("accepted random texts of the family schemas x override lists of 1..%d specifiers (section components by "
